@@ -12,7 +12,7 @@ chk("C04", "differential testing against mirrored Python evaluation (exhaustive 
 chk("C01", "model-based testing of generated assignment histories against a pull-model reference interpreter",
     "Hypothesis-generated histories (3..30 operations over nested dict/list/attribute containers, expression / function / knob "
     "tasks, consumer-before-producer order) and deep/wide graph shapes (chains to 5000); after every operation every location is "
-    "compared with an independent pull-model re-evaluation in true data-flow order.",
+    "compared with an independent pull-model re-evaluation in true data-flow order. Fresh (not yet existing) assignment targets and long histories (40..120 operations).",
     TRUST + " Known finding K1 (ordering cycle through a shared nested container) is excluded by construction and counted.",
     "DESIGN.md 4/C01")
 
@@ -27,7 +27,7 @@ chk("C02", "trace-based model testing: generated task graphs, harness-owned star
 chk("C03", "stateful differential testing against a freshly built manager plus a two-sided index invariant",
     "Generated register/unregister/assign/load-free histories; after every step the supports of the four reverse indices must equal a "
     "derivation from the tasks' public fields (two-sided, stronger than verify()) and verify() must pass; then every query and the "
-    "reaction to follow-up assignments are compared with fresh managers built (in two orders) from only the surviving definitions.",
+    "reaction to follow-up assignments are compared with fresh managers built (in two orders) from only the surviving definitions. Fresh (not yet existing) assignment targets and long histories (40..120 operations).",
     TRUST, "DESIGN.md 4/C03")
 
 chk("C05", "exhaustive node-class x slot enumeration (introspected) plus generated terms, structural and metamorphic oracle",
@@ -93,7 +93,7 @@ chk("C18", "fault injection at every crash point of a generated update, differen
     "last, middle and drawn ones) a fresh world fails at event k with a drawn exception type (private class, KeyError, AttributeError, IndexError, ValueError, RuntimeError, TypeError, OSError): the injected exception object must reach the caller, the observed "
     "events must be exactly W[0..k], the contents must equal the pre-state plus the writes of W[:k], dump()/index supports/verify()/"
     "queries must equal the twin's, and a fault-free repeat must reproduce the twin's final contents; one more world takes 2-3 faulty "
-    "attempts in a row before the repeat.",
+    "attempts in a row before the repeat. Fresh (not yet existing) assignment targets; a two-stage family: a faulty first attempt, then a different assignment failing at each of its own crash points, against a twin that took the same first fault.",
     TRUST + " Linear knobs (incremental, not idempotent by design) and in-place observed assignments are outside the check.",
     "DESIGN.md 4/C18", category="fault_enumeration")
 
@@ -170,7 +170,7 @@ chk("C19", "grammar-based generation (own walker over calc_grammar) with a three
     "attr element mode: the deferred expression over refs, the immediate evaluation over plain data and the harness' Python evaluation "
     "of the derivation tree must agree bit for bit or all fail; after changing variables and element attributes through the manager they "
     "must agree again and a variable defined as the deferred expression must hold the immediate value (push path); then every element is "
-    "REPLACED by a new object through the manager and all of it is compared once more.",
+    "REPLACED by a new object through the manager and all of it is compared once more. Positions are also given from the end; names may hold a single separator character (mq:1, x->y). Two fixed column expressions are asked again on every table after every step and compared with that table's current columns. A structurally singular family (zero matrix, zero rows / columns, rcond default / 0 / None) requires the finite minimum-norm solution; the public pair view.set_x / view.get_x is checked on every view. An integer-valued family (ints up to 10**400, + - * / and signs), -0.0 and copysign, and every deferred expression asked twice per stage (same answer or same failure).",
     TRUST + " When the immediate evaluation hits a division by zero nothing is required of the deferred one (documented NaN deviation); "
     "if both fail the exception types may differ (evaluation order).", "DESIGN.md 4/C19")
 
